@@ -328,8 +328,18 @@ def m_current_dir(it, argv, text):
 
 @model('absolute')
 def m_absolute(it, argv, text):
+    """std::path::absolute (POSIX): joins a relative path to the cwd, drops `.` components and repeated separators, but -- unlike
+    canonicalize -- KEEPS `..` components and does not touch the file system (no symlink resolution, the path need not exist)"""
     env = E.env_of(it)
-    return S.ok(StrV(E.comps_to_bytes(env.norm(E.path_arg(it, argv[0])))))
+    p = E.path_arg(it, argv[0])
+    if any(is_sym(b) for b in p):
+        raise Unsupported("std::path::absolute of a symbolic path")
+    p = bytes(p)
+    if not p:
+        return S.err(E.io_error('InvalidInput'))
+    full = p if p.startswith(b'/') else bytes(env.cwd).rstrip(b'/') + b'/' + p
+    comps = [c for c in full.split(b'/') if c not in (b'', b'.')]
+    return S.ok(StrV(tuple(b'/' + b'/'.join(comps))))
 
 
 @model('remove_dir_all', 'remove_dir')
@@ -630,3 +640,24 @@ def m_localkey_with(it, argv, text):
     if text.split('::')[-1].startswith('with_borrow'):
         raise Unsupported("LocalKey::with_borrow*")
     return it.call_value(argv[1], [ref])
+
+
+@model('str::trim_ascii_start', 'str::trim_ascii_end', 'str::trim_ascii')
+def m_trim_ascii(it, argv, text):
+    """ASCII white space per u8::is_ascii_whitespace: TAB, LF, FF, CR, SPACE (NOT vertical tab, NOT Unicode white space)"""
+    bs = it.as_str(argv[0]).b
+    WS = frozenset([9, 10, 12, 13, 32])
+
+    def is_ws(b):
+        if isinstance(b, int):
+            return b in WS
+        return it.ctx.branch(t_in(b, WS), 'ascii_ws')
+    i, j = 0, len(bs)
+    kind = text.rsplit('::', 1)[-1]
+    if kind in ('trim_ascii_start', 'trim_ascii'):
+        while i < j and is_ws(bs[i]):
+            i += 1
+    if kind in ('trim_ascii_end', 'trim_ascii'):
+        while j > i and is_ws(bs[j - 1]):
+            j -= 1
+    return StrV(tuple(bs[i:j]))
